@@ -611,6 +611,9 @@ template <class T> struct Maker<PhQ::ConstitutiveModel::CompressibleNewtonianFlu
             if v is None:
                 return None
             if q["unit"]:
+                tshort = TSHORT.get(m.group(2))
+                if tshort and any(k.startswith("%s<%s>|Create(" % (m.group(1), tshort)) for k in self.exclude):
+                    return None   # the library cannot compile Create<> for this numeric type (c20_exclude.json)
                 e = r.choice(self.cat.units[q["unit"]]["enumerators"])
                 return "%s::Create<PhQ::Unit::%s::%s>(%s)" % (ctype, q["unit"], e, v)
             return "%s{%s}" % (ctype, v)
@@ -628,7 +631,7 @@ template <class T> struct Maker<PhQ::ConstitutiveModel::CompressibleNewtonianFlu
         with the same call on run-time operands"""
         info, members = self.class_members(cname)
         selfT = "PhQ::%s<%s>" % (cname, T)
-        short = cname.replace("::", "_")
+        short = cname.replace("::", "_") + "_" + TSHORT[T]
         decls, entries = [], []
         seen = set()
         for mem in members:
@@ -724,9 +727,10 @@ template <class T> struct Maker<PhQ::ConstitutiveModel::CompressibleNewtonianFlu
                     frags.append((text.count("    case "), text))
         if const_literals is not None:
             for n in self.class_list():
-                text = self.render_const_literals(n, const_literals)
-                if text:
-                    frags.append((text.count("clit_obj_"), text))
+                for T in NUMERIC:   # every class x every numeric type (cheap: one object and two small functions per member)
+                    text = self.render_const_literals(n, const_literals, T)
+                    if text:
+                        frags.append((text.count("clit_obj_"), text))
         for U in sorted(self.cat.units):
             text = self.render_units([U], NUMERIC)
             if "vrt::OpEntry" in text:
